@@ -381,7 +381,7 @@ def rules(ctx):
         out.append(hir_mir_registry_writers)
     try:
         from . import c20
-        out += [c20.r20_1, c20.r20_2, c20.r20_5]
+        out += [c20.r20_1, c20.r20_2, c20.r20_5, c20.r20_3]
     except ImportError:
         pass
     return out
